@@ -54,7 +54,7 @@ def run(ctx):
         return
     since = len(ctx.tlc_runs)
     ct.validate(ctx, "TraceApiGate", (res.get("coverage") or {}).get("trace_files") or [], base + ".cases",
-                "TestC23", {}, "C23", _match, parallel=1, timeout=600)
+                "TestC23", {}, "C23", _match, parallel=3, timeout=600)
     st = _stale(ctx, since)
     if st:
         ctx.inconclusive.append("spec stale: api.go and the tables of spec/ApiGate.tla disagree on " + st)
